@@ -88,7 +88,7 @@ with G_compound : list token -> list hbody -> bytes -> list hbody -> Prop :=
 (* arith_eval: LAE WORD RAE *)
 | G_arith la w ra hs :
     tk la = K_LAE -> tk w = K_WORD -> tk ra = K_RAE ->
-    G_compound [la; w; ra] hs (B "arith" ++ sk_word (tw w)) hs
+    G_compound [la; w; ra] hs (B "arith" ++ sk_word_arith (tw w)) hs
 (* while_clause / until_clause: While compound_list Do compound_list Done *)
 | G_while wh ts1 d ts2 dn hs c hs1 l hs2 :
     (tk wh = K_WHILE \/ tk wh = K_UNTIL) -> G_clist ts1 hs c hs1 -> tk d = K_DO -> G_clist ts2 hs1 l hs2 -> tk dn = K_DONE ->
